@@ -30,19 +30,28 @@ CONSTANTS Apps,            \* sequence of app labels, in INSTALLED_APPS order
           MaxRuns,         \* bound on the number of runs in a history
           NStmt,           \* abstract statements per evolution task
           InjectFaults,    \* explore a fault at every statement
-          AllowDeviations  \* enable the named deviations of the code
+          AllowDeviations, \* enable the named deviations of the code
+          Intro,           \* Intro[a]: version at which app a gains a second model
+                           \* group G2 as NEW models without an evolution (0: never)
+          Grp              \* Grp[a][i]: the model group (1 or 2) evolution i of a targets
 
 AppSet == { Apps[i] : i \in 1..Len(Apps) }
 Vers   == -1..MaxVer
 
-VARIABLES code, tab, part, stored, nver, evo,      \* environment + durable
+VARIABLES code, tab, part, g2, stored, nver, evo,  \* environment + durable
           pend,                                     \* open transaction
           pc, drv, work, todo, create, rec,         \* run-local
-          cur, si, fault, failed, sigs, execs, runs, snap, newver
+          cur, si, fault, failed, sigs, execs, runs, snap, newver, withsql
 
 durable == <<tab, part, stored, nver, evo>>
-vars == <<code, tab, part, stored, nver, evo, pend, pc, drv, work, todo,
-          create, rec, cur, si, fault, failed, sigs, execs, runs, snap, newver>>
+vars == <<code, tab, part, g2, stored, nver, evo, pend, pc, drv, work, todo,
+          create, rec, cur, si, fault, failed, sigs, execs, runs, snap, newver, withsql>>
+
+(* model groups: G1 exists from version 0; G2 appears at version Intro[a] as new
+   models.  g2[a] is TRUE in the one transient situation where G2's tables exist
+   although the rest of the app's tables are still at a version < Intro[a] *)
+HasG2(a, v) == Intro[a] > 0 /\ v >= Intro[a]
+G2Exists(a) == HasG2(a, tab[a]) \/ g2[a]
 
 Range(s) == { s[i] : i \in 1..Len(s) }
 Recorded(a, i) == \E k \in 1..Len(evo) : evo[k][1] = a /\ evo[k][2] = i
@@ -58,6 +67,7 @@ None == [a \in AppSet |-> <<>>]
 
 Init == /\ code = [a \in AppSet |-> -1]
         /\ tab = [a \in AppSet |-> -1] /\ part = [a \in AppSet |-> 0]
+        /\ g2 = [a \in AppSet |-> FALSE] /\ withsql = [a \in AppSet |-> {}]
         /\ stored = [a \in AppSet |-> -1] /\ nver = 0 /\ evo = <<>>
         /\ pend = <<>>
         /\ pc = "idle" /\ drv = "api"
@@ -74,7 +84,7 @@ Deploy(a, v) ==
     /\ pc = "idle" /\ v > code[a] /\ v <= MaxVer
     /\ code' = [code EXCEPT ![a] = v]
     /\ UNCHANGED <<tab, part, stored, nver, evo, pend, pc, drv, work, todo, create,
-                   rec, cur, si, fault, failed, sigs, execs, runs, snap, newver>>
+                   rec, cur, si, fault, failed, sigs, execs, runs, snap, newver, g2, withsql>>
 
 ---------------------------------------------------------------------------
 (* Evolver.__init__: load the stored signature; on a database without a
@@ -89,8 +99,8 @@ Construct(d) ==
     /\ snap' = <<tab, part, stored, nver', evo, execs>>
     /\ sigs' = <<>> /\ failed' = FALSE /\ fault' = <<>>
     /\ todo' = None /\ create' = {} /\ rec' = [a \in AppSet |-> {}]
-    /\ cur' = 1 /\ si' = 0
-    /\ UNCHANGED <<code, tab, part, stored, evo, pend, execs>>
+    /\ cur' = 1 /\ si' = 0 /\ withsql' = [a \in AppSet |-> {}]
+    /\ UNCHANGED <<code, tab, part, stored, evo, pend, execs, g2>>
 
 (* EvolveAppTask.prepare for every queued app, then the simulation check.
    New app (no stored signature): copy the target signature, record the whole
@@ -98,6 +108,12 @@ Construct(d) ==
    labels, simulated on a clone of the signature. *)
 PendingOf(a) == { i \in 1..code[a] : ~Recorded(a, i) }
 SimValid(a)  == PendingOf(a) = (stored[a] + 1)..code[a]   \* chain: exactly the missing suffix
+
+(* new models of an already tracked app: G2 is deployed but its tables are missing *)
+NewModels(a) == HasG2(a, code[a]) /\ ~G2Exists(a)
+(* pending labels that carry SQL: get_app_pending_mutations drops the mutations of
+   models that are being created in this very run *)
+WithSql(a) == { i \in PendingOf(a) : Grp[a][i] = 1 \/ G2Exists(a) }
 
 Prepare ==
     /\ pc = "constructed"
@@ -107,18 +123,20 @@ Prepare ==
        IN IF bad # {}
           THEN \* SimulationFailure out of prepare(): no signal has been sent yet
                /\ pc' = IF drv = "cmd" THEN "rejected" ELSE "failed"
-               /\ UNCHANGED <<work, todo, create, rec>>
-          ELSE /\ create' = { a \in newApps : tab[a] = -1 }
+               /\ UNCHANGED <<work, todo, create, rec, withsql>>
+          ELSE /\ create' = { a \in newApps : tab[a] = -1 } \cup { a \in oldApps : NewModels(a) }
                /\ work' = [a \in AppSet |->
                              IF a \in newApps THEN (IF tab[a] = -1 THEN code[a] ELSE -1)
                              ELSE IF a \in oldApps THEN code[a] ELSE stored[a]]
                /\ todo' = [a \in AppSet |->
-                             IF a \in oldApps THEN SortedSeq(PendingOf(a)) ELSE <<>>]
+                             IF a \in oldApps /\ WithSql(a) # {}
+                             THEN SortedSeq(PendingOf(a)) ELSE <<>>]
+               /\ withsql' = [a \in AppSet |-> IF a \in oldApps THEN WithSql(a) ELSE {}]
                /\ rec' = [a \in AppSet |->
                              IF a \in newApps THEN 1..code[a]
                              ELSE IF a \in oldApps THEN PendingOf(a) ELSE {}]
                /\ pc' = "prepared"
-    /\ UNCHANGED <<code, tab, part, stored, nver, evo, pend, drv, cur, si, fault,
+    /\ UNCHANGED <<code, tab, part, g2, stored, nver, evo, pend, drv, cur, si, fault,
                    failed, sigs, execs, runs, snap, newver>>
 
 Required == create # {} \/ \E a \in AppSet : todo[a] # <<>>
@@ -128,7 +146,7 @@ NothingRequired ==
     /\ pc = "prepared" /\ drv = "cmd" /\ ~Required
     /\ pc' = "idle"
     /\ UNCHANGED <<code, tab, part, stored, nver, evo, pend, drv, work, todo, create,
-                   rec, cur, si, fault, failed, sigs, execs, runs, snap, newver>>
+                   rec, cur, si, fault, failed, sigs, execs, runs, snap, newver, g2, withsql>>
 
 (* Evolver.evolve(): evolving.send() before any change is made.  A fault, if
    any, is chosen here: <<phase, app, statement>> *)
@@ -143,7 +161,7 @@ EmitEvolving ==
        \/ InjectFaults /\ \E f \in FaultPoints : fault' = f
     /\ cur' = 1 /\ si' = 0
     /\ UNCHANGED <<code, tab, part, stored, nver, evo, pend, drv, work, todo, create,
-                   rec, failed, execs, runs, snap, newver>>
+                   rec, failed, execs, runs, snap, newver, g2, withsql>>
 
 ---------------------------------------------------------------------------
 (* The single EVOLUTIONS batch: all new models first (one run_sql call, one
@@ -160,48 +178,53 @@ EmitCreating ==
     /\ sigs' = sigs \o [k \in 1..Len(CreateOrder) |-> <<"creating_models", CreateOrder[k]>>]
     /\ cur' = 1
     /\ UNCHANGED <<code, tab, part, stored, nver, evo, pend, drv, work, todo, create,
-                   rec, si, fault, failed, execs, runs, snap, newver>>
+                   rec, si, fault, failed, execs, runs, snap, newver, g2, withsql>>
 
 CreateStmt ==
     /\ pc = "creating" /\ cur <= Len(CreateOrder)
     /\ LET a == CreateOrder[cur]
        IN IF fault = <<"create", a, 1>>
-          THEN /\ pc' = "failing" /\ UNCHANGED <<pend, cur>>
+          THEN /\ pc' = "failing" /\ UNCHANGED <<pend, cur, g2, withsql>>
           ELSE /\ pend' = Append(pend, <<"create", a, code[a]>>)
                /\ cur' = cur + 1 /\ UNCHANGED pc
     /\ UNCHANGED <<code, tab, part, stored, nver, evo, drv, work, todo, create, rec,
-                   si, fault, failed, sigs, execs, runs, snap, newver>>
+                   si, fault, failed, sigs, execs, runs, snap, newver, g2, withsql>>
 
 EmitCreated ==
     /\ pc = "creating" /\ cur > Len(CreateOrder)
     /\ sigs' = sigs \o [k \in 1..Len(CreateOrder) |-> <<"created_models", CreateOrder[k]>>]
     /\ pc' = "evolving2" /\ cur' = 1
     /\ UNCHANGED <<code, tab, part, stored, nver, evo, pend, drv, work, todo, create,
-                   rec, si, fault, failed, execs, runs, snap, newver>>
+                   rec, si, fault, failed, execs, runs, snap, newver, g2, withsql>>
 
 SkipCreate ==
     /\ pc = "evolving" /\ create = {}
     /\ pc' = "evolving2" /\ cur' = 1
     /\ UNCHANGED <<code, tab, part, stored, nver, evo, pend, drv, work, todo, create,
-                   rec, si, fault, failed, sigs, execs, runs, snap, newver>>
+                   rec, si, fault, failed, sigs, execs, runs, snap, newver, g2, withsql>>
 
 (* SQLExecutor.new_transaction(): finish (commit) the previous one *)
-Flush(t, p, e) ==   \* apply one pending effect to the durable tables
-    CASE e[1] = "create" -> <<[t EXCEPT ![e[2]] = e[3]], p>>
-      [] e[1] = "stmt"   -> IF p[e[2]] + 1 = NStmt
-                            THEN <<[t EXCEPT ![e[2]] = e[3]], [p EXCEPT ![e[2]] = 0]>>
-                            ELSE <<t, [p EXCEPT ![e[2]] = @ + 1]>>
-      [] OTHER -> <<t, p>>
-RECURSIVE FlushAll(_, _, _)
-FlushAll(t, p, es) == IF es = <<>> THEN <<t, p>>
-                      ELSE LET r == Flush(t, p, Head(es)) IN FlushAll(r[1], r[2], Tail(es))
+Flush(st, e) ==   \* apply one pending effect to the durable tables <<tab, part, g2>>
+    LET t == st[1]  p == st[2]  g == st[3]  a == e[2] IN
+    CASE e[1] = "create" ->
+            IF stored[a] = -1 \/ withsql[a] = {}
+            THEN <<[t EXCEPT ![a] = e[3]], p, g>>              \* the app is now at e[3]
+            ELSE <<t, p, [g EXCEPT ![a] = TRUE]>>              \* G2 made, G1 still to evolve
+      [] e[1] = "stmt"   -> IF p[a] + 1 = NStmt
+                            THEN <<[t EXCEPT ![a] = e[3]], [p EXCEPT ![a] = 0], [g EXCEPT ![a] = FALSE]>>
+                            ELSE <<t, [p EXCEPT ![a] = @ + 1], g>>
+      [] OTHER -> st
+RECURSIVE FlushAll(_, _)
+FlushAll(st, es) == IF es = <<>> THEN st ELSE FlushAll(Flush(st, Head(es)), Tail(es))
+DoFlush == LET r == FlushAll(<<tab, part, g2>>, pend)
+           IN tab' = r[1] /\ part' = r[2] /\ g2' = r[3] /\ pend' = <<>>
 
 EmitApplying ==
     /\ pc = "evolving2" /\ cur <= Len(EvolveOrder)
     /\ sigs' = Append(sigs, <<"applying_evolution", EvolveOrder[cur], todo[EvolveOrder[cur]]>>)
     /\ pc' = "applying" /\ si' = 1
     /\ UNCHANGED <<code, tab, part, stored, nver, evo, pend, drv, work, todo, create,
-                   rec, cur, fault, failed, execs, runs, snap, newver>>
+                   rec, cur, fault, failed, execs, runs, snap, newver, g2, withsql>>
 
 (* NAMED DEVIATION: every run_sql call commits what the previous call left
    open, so an earlier unit of the run is durable before a later one starts *)
@@ -209,20 +232,19 @@ CommitBetweenUnits ==
     /\ AllowDeviations /\ pend # <<>>
     /\ \/ pc = "applying" /\ si = 1
        \/ pc = "evolving2" /\ cur <= Len(EvolveOrder)
-    /\ LET r == FlushAll(tab, part, pend)
-       IN tab' = r[1] /\ part' = r[2] /\ pend' = <<>>
+    /\ DoFlush
     /\ UNCHANGED <<code, stored, nver, evo, pc, drv, work, todo, create, rec, cur, si,
-                   fault, failed, sigs, execs, runs, snap, newver>>
+                   fault, failed, sigs, execs, runs, snap, newver, withsql>>
 
 EvoStmt ==
     /\ pc = "applying" /\ si <= NStmt
     /\ LET a == EvolveOrder[cur]
        IN IF fault = <<"evolve", a, si>>
-          THEN /\ pc' = "failing" /\ UNCHANGED <<pend, si>>
+          THEN /\ pc' = "failing" /\ UNCHANGED <<pend, si, g2, withsql>>
           ELSE /\ pend' = Append(pend, <<"stmt", a, code[a]>>)
                /\ si' = si + 1 /\ UNCHANGED pc
     /\ UNCHANGED <<code, tab, part, stored, nver, evo, drv, work, todo, create, rec,
-                   cur, fault, failed, sigs, execs, runs, snap, newver>>
+                   cur, fault, failed, sigs, execs, runs, snap, newver, g2, withsql>>
 
 EmitApplied ==
     /\ pc = "applying" /\ si > NStmt
@@ -230,18 +252,17 @@ EmitApplied ==
     /\ pc' = "evolving2" /\ cur' = cur + 1
     \* history: every label of the task has now had its SQL executed in full
     /\ execs' = [execs EXCEPT ![EvolveOrder[cur]] = [i \in 1..MaxVer |->
-                    IF i \in Range(todo[EvolveOrder[cur]]) THEN @[i] + 1 ELSE @[i]]]
+                    IF i \in withsql[EvolveOrder[cur]] THEN @[i] + 1 ELSE @[i]]]
     /\ UNCHANGED <<code, tab, part, stored, nver, evo, pend, drv, work, todo, create,
-                   rec, si, fault, failed, runs, snap, newver>>
+                   rec, si, fault, failed, runs, snap, newver, g2, withsql>>
 
 (* SQLExecutor.__exit__ on the normal path: commit *)
 CommitBatch ==
     /\ pc = "evolving2" /\ cur > Len(EvolveOrder)
-    /\ LET r == FlushAll(tab, part, pend)
-       IN tab' = r[1] /\ part' = r[2] /\ pend' = <<>>
+    /\ DoFlush
     /\ pc' = "saving"
     /\ UNCHANGED <<code, stored, nver, evo, drv, work, todo, create, rec, cur, si,
-                   fault, failed, sigs, execs, runs, snap, newver>>
+                   fault, failed, sigs, execs, runs, snap, newver, withsql>>
 
 (* a statement failed: the design rolls the open transaction back ... *)
 RollbackAfterFailure ==
@@ -250,23 +271,22 @@ RollbackAfterFailure ==
     \* executions whose effects were never committed do not count as executions
     /\ execs' = IF \E k \in 1..Len(pend) : pend[k][1] = "stmt" THEN snap[6] ELSE execs
     /\ UNCHANGED <<code, tab, part, stored, nver, evo, drv, work, todo, create, rec,
-                   cur, si, fault, failed, sigs, runs, snap, newver>>
+                   cur, si, fault, failed, sigs, runs, snap, newver, g2, withsql>>
 
 (* ... NAMED DEVIATION: SQLExecutor.__exit__ ignores the exception and commits *)
 CommitAfterFailure ==
     /\ AllowDeviations /\ pc = "failing"
-    /\ LET r == FlushAll(tab, part, pend)
-       IN tab' = r[1] /\ part' = r[2] /\ pend' = <<>>
+    /\ DoFlush
     /\ pc' = "emitfailed"
     /\ UNCHANGED <<code, stored, nver, evo, drv, work, todo, create, rec, cur, si,
-                   fault, failed, sigs, execs, runs, snap, newver>>
+                   fault, failed, sigs, execs, runs, snap, newver, withsql>>
 
 EmitFailed ==
     /\ pc = "emitfailed"
     /\ sigs' = Append(sigs, <<"evolving_failed">>)
     /\ pc' = "failed" /\ failed' = TRUE
     /\ UNCHANGED <<code, tab, part, stored, nver, evo, pend, drv, work, todo, create,
-                   rec, cur, si, fault, execs, runs, snap, newver>>
+                   rec, cur, si, fault, execs, runs, snap, newver, g2, withsql>>
 
 (* Evolver._save_project_sig: the Version row (with the simulated signature)
    and the Evolution rows of every task, attached to that version *)
@@ -283,21 +303,21 @@ SaveSignature ==
     /\ evo' = evo \o RowsOf
     /\ pc' = "saved"
     /\ UNCHANGED <<code, tab, part, pend, drv, work, todo, create, rec, cur, si, fault,
-                   failed, sigs, execs, runs, snap, newver>>
+                   failed, sigs, execs, runs, snap, newver, g2, withsql>>
 
 EmitEvolved ==
     /\ pc = "saved"
     /\ sigs' = Append(sigs, <<"evolved">>)
     /\ pc' = "done"
     /\ UNCHANGED <<code, tab, part, stored, nver, evo, pend, drv, work, todo, create,
-                   rec, cur, si, fault, failed, execs, runs, snap, newver>>
+                   rec, cur, si, fault, failed, execs, runs, snap, newver, g2, withsql>>
 
 (* the run object is dropped; the next run may start *)
 Finish ==
     /\ pc \in {"done", "failed", "rejected"}
     /\ pc' = "idle" /\ sigs' = <<>>
     /\ UNCHANGED <<code, tab, part, stored, nver, evo, pend, drv, work, todo, create,
-                   rec, cur, si, fault, failed, execs, runs, snap, newver>>
+                   rec, cur, si, fault, failed, execs, runs, snap, newver, g2, withsql>>
 
 Next == \/ \E a \in AppSet, v \in 0..MaxVer : Deploy(a, v)
         \/ \E d \in {"api", "cmd"} : Construct(d)
@@ -322,7 +342,7 @@ TypeOK == /\ code \in [AppSet -> Vers] /\ tab \in [AppSet -> Vers]
    the deployed version of every installed app *)
 Converged ==
     pc = "done" => \A a \in Installed :
-        /\ tab[a] = code[a] /\ part[a] = 0 /\ stored[a] = code[a]
+        /\ tab[a] = code[a] /\ part[a] = 0 /\ ~g2[a] /\ stored[a] = code[a]
         /\ \A i \in 1..code[a] : Recorded(a, i)
 (* C04: a run constructed in a converged state has nothing to do *)
 RerunIsNoop ==
@@ -333,7 +353,7 @@ RerunIsNoop ==
 FailedRunIsInvisible ==
     (pc = "failed" /\ fault # <<>>) =>
         /\ stored = snap[3] /\ nver = snap[4] /\ evo = snap[5]     \* nothing recorded
-        /\ \A a \in AppSet : part[a] = 0                             \* no half-applied evolution
+        /\ \A a \in AppSet : part[a] = 0 /\ ~g2[a]                   \* no half-applied evolution
         /\ tab[fault[2]] = snap[1][fault[2]]                          \* the failing unit left no trace
 (* what an earlier, completed unit of the same run committed may stay (the
    code commits per run_sql call); the stored signature then lags behind the
@@ -353,7 +373,7 @@ RecordedOnlyWithTables ==        \* a recorded label is reflected in the tables
     \A k \in 1..Len(evo) : tab[evo[k][1]] >= evo[k][2] \/ pc \notin {"idle", "done"}
 RecordedWithinVersions == \A k \in 1..Len(evo) : evo[k][3] \in 1..nver
 FreshRecordsWithoutExecuting ==
-    pc = "done" => \A a \in create : \A i \in 1..code[a] : execs[a][i] = 0
+    pc = "done" => \A a \in create : snap[3][a] = -1 => \A i \in 1..code[a] : execs[a][i] = 0
 
 (* C17: signals *)
 Count(name) == Cardinality({ k \in 1..Len(sigs) : sigs[k][1] = name })
@@ -372,7 +392,7 @@ NoTerminalWithoutEvolving ==
     Count("evolving") = 0 => Count("evolved") + Count("evolving_failed") = 0
 
 (* the partial-state marker only exists in states a correct run never leaves behind *)
-NoPartialAtRest == pc = "idle" => \A a \in AppSet : part[a] = 0
+NoPartialAtRest == pc = "idle" => \A a \in AppSet : part[a] = 0 /\ ~g2[a]
 
 StateBound == runs <= MaxRuns
 =============================================================================
